@@ -325,6 +325,9 @@ def drain_iter(E, it):
 def _into_iter(E, ci, v):
     if ci.method == 'by_ref':
         return v
+    d = deref(v)
+    if isinstance(d, Agg) and (d.ty, 'Iterator', 'next') in E.prog.index:
+        return v          # a crate type that is its own iterator
     return iter_of(E, v)
 
 
